@@ -453,3 +453,34 @@ def sgx_certificate(ai: int, npem: int, rs1: int, rs2: int, tail_ok: bool) -> bo
         }
         return doc["version"] == 2 and doc["targets"] == ["quote"] and els == want
     return c_boundary(body)(enum(ai, 0, 4), enum(npem, 2, 3), enum(rs1, 0, 2), enum(rs2, 0, 2), True if tail_ok else False)
+
+
+# ------------------------------------------------------------------ the verifying half reads what the gathering half wrote
+
+@obligation(tier="quick", parts=2, timeout=200, part_names=["current signer framing", "legacy signer framing"],
+            bounds="the first byte of the UD value / of the operator's keys hash position - i.e. the byte that follows the delimiter-less "
+                   "message header HSM:UI:5.4 - symbolic over 0x2c..0x3d (all ASCII digits and their neighbours), 0 and 255: a genuine message is accepted "
+                   "by the real verify command and the printed UD value is the device's",
+            examples=[(0, dict(b0=0x37)), (1, dict(b0=0x30)), (0, dict(b0=0x00)), (1, dict(b0=0xff))])
+def verify_reads_gathered(b0: int) -> bool:
+    """
+    pre: 0x2c <= b0 <= 0x3d or b0 == 0 or b0 == 255
+    post: _
+    """
+    import harness.c08 as c08
+    import admin.verify_ledger_attestation as vl
+    b0 = enum(b0, 0, 255)
+    legacy = part() == 1
+    ud = bytes([b0]) + pat(31, 1)
+    ui_key = b"\x02" + c08.key_of(0)[1:33]
+    ui_msg = c08.ui_message(b"HSM:UI:5.4", ui_key, ud=ud)
+    khash = c08.operator_hash()
+    if legacy:
+        sg_msg = b"HSM:SIGNER:5.4" + khash
+    else:
+        sg_msg = b"POWHSM:5.4::" + c08.powhsm_body(khash, 0)
+    result = {"ui": (True, ui_msg.hex(), pat(32, 7).hex()), "signer": (True, sg_msg.hex(), pat(32, 8).hex())}
+    with c08.Env(c08.pubkeys_doc(0), result, True) as env:
+        res = c08.run(vl.do_verify_attestation)
+        printed = "\n".join(str(x) for x in env.printed)
+    return res == "ok" and ("UD value: " + ud.hex()) in printed and ("Authorized signer hash: " + pat(32, 2).hex()) in printed
